@@ -366,7 +366,7 @@ fn worker(ctx: &WorkerCtx) -> Result<(), Fail> {
         st.class("directed: knight shuffle with > 255 repetitions");
         st.nontrivial(digest(&plies));
     }
-    run_proptest(ctx, 15, ctx.share(ctx.tier.pick(30_000, 1_500_000)), strategy(), |c| serde_json::to_value(c).unwrap(), run_case)
+    run_proptest(ctx, 15, ctx.share(ctx.tier.pick(100_000, 1_500_000)), strategy(), |c| serde_json::to_value(c).unwrap(), run_case)
 }
 
 fn replay(v: &Value) -> Result<(), String> {
